@@ -91,11 +91,11 @@ var opNames = map[int]string{opCreateIndex: "index creation", opDropIndex: "inde
 // stepFamily: the inductive-step harness H_STEP for one property: all single-document writes from the
 // canonical state, plus one small run per additional operation kind.
 func stepFamily(prop int, extra []int) []Harness {
-	hs := []Harness{{Dir: ".", Func: "H_STEP", Quick: P{"prop": prop, "maxdocs": 1, "tags": stQuickTags, "ctags": TInt32}, Thorough: P{"prop": prop, "maxdocs": 2, "tags": stQuickTags, "ctags": TInt32},
+	hs := []Harness{{Dir: ".", Func: "H_STEP", Quick: P{"prop": prop, "maxdocs": 1, "tags": stQuickTags, "ctags": TInt32}, Thorough: P{"prop": prop, "maxdocs": 1, "tags": stQuickTags | TDouble, "ctags": TInt32},
 		Note: "insert / replace / update-one / update-many / delete / upsert from the canonical state"}}
 	for _, op := range extra {
 		q := P{"prop": prop, "maxdocs": 1, "op": op, "tags": TInt32 | TString, "ctags": TInt32}
-		t := P{"prop": prop, "maxdocs": 2, "op": op, "tags": stQuickTags, "ctags": TInt32}
+		t := P{"prop": prop, "maxdocs": 2, "op": op, "tags": TInt32 | TString, "ctags": TInt32}
 		if op == opInsertMany || op == opBulk {
 			// two items per call: keep the value domain small in the quick tier
 			q["partial"] = 0
@@ -122,15 +122,15 @@ var checks = []Check{
 	{
 		Property: "C10",
 		Harnesses: []Harness{
-			{Dir: "mongokit", Func: "H_C10_gte", Quick: P{"ddepth": 1, "vdepth": 0, "dlen": 1}, Thorough: P{"ddepth": 2, "vdepth": 1}},
-			{Dir: "mongokit", Func: "H_C10_neg", Quick: P{"ddepth": 1, "vdepth": 0, "dlen": 1}, Thorough: P{"ddepth": 2, "vdepth": 1}},
-			{Dir: "mongokit", Func: "H_C10_in", Quick: P{"ddepth": 0, "vdepth": 0, "dlen": 1}, Thorough: P{"ddepth": 1, "vdepth": 1}},
+			{Dir: "mongokit", Func: "H_C10_gte", Quick: P{"ddepth": 1, "vdepth": 0, "dlen": 1}, Thorough: P{"ddepth": 1, "vdepth": 0, "dlen": 2}},
+			{Dir: "mongokit", Func: "H_C10_neg", Quick: P{"ddepth": 1, "vdepth": 0, "dlen": 1}, Thorough: P{"ddepth": 1, "vdepth": 0, "dlen": 2}},
+			{Dir: "mongokit", Func: "H_C10_in", Quick: P{"ddepth": 0, "vdepth": 0, "dlen": 1}, Thorough: P{"ddepth": 1, "vdepth": 0, "dlen": 1}},
 			{Dir: "mongokit", Func: "H_C10_andor", Quick: P{"ddepth": 0, "vdepth": 0, "dlen": 2, "dtags": TNull | TInt32 | TString, "vtags": TInt32 | TString},
-				Thorough: P{"ddepth": 1, "vdepth": 0, "dlen": 2, "dtags": TNull | TInt32 | TDouble | TString | TArray, "vtags": TInt32 | TDouble | TString}},
-			{Dir: "mongokit", Func: "H_C10_refcmp", Quick: P{"ddepth": 1, "vdepth": 0, "dlen": 1}, Thorough: P{"ddepth": 2, "vdepth": 1}},
+				Thorough: P{"ddepth": 0, "vdepth": 0, "dlen": 2, "dtags": TNull | TInt32 | TDouble | TString, "vtags": TInt32 | TDouble | TString}},
+			{Dir: "mongokit", Func: "H_C10_refcmp", Quick: P{"ddepth": 1, "vdepth": 0, "dlen": 1}, Thorough: P{"ddepth": 1, "vdepth": 0, "dlen": 2}},
 			{Dir: "mongokit", Func: "H_C10_not2", Quick: P{"ddepth": 0, "vdepth": 0, "dlen": 1, "dtags": TNull | TInt32 | TString | TArray, "vtags": TInt32 | TString}, Thorough: P{"ddepth": 1, "vdepth": 0, "dlen": 1}},
 			{Dir: "mongokit", Func: "H_C10_reftype", Quick: P{"ddepth": 1, "dlen": 1}, Thorough: P{"ddepth": 2}},
-			{Dir: "mongokit", Func: "H_C10_refmisc", Quick: P{"ddepth": 1, "dlen": 1}, Thorough: P{"ddepth": 2}},
+			{Dir: "mongokit", Func: "H_C10_refmisc", Quick: P{"ddepth": 1, "dlen": 1}, Thorough: P{"ddepth": 1, "dlen": 2}},
 			{Dir: "mongokit", Func: "H_C10_refall", Quick: P{}, Thorough: P{}, Note: "$all / $size against reference semantics"},
 			{Dir: "mongokit", Func: "H_C10_refelem", Quick: P{}, Thorough: P{}, Note: "$elemMatch (operator and document form) against reference semantics"},
 			{Dir: "mongokit", Func: "H_C10_refnum", Quick: P{}, Thorough: P{}, Note: "$mod and $bitsAllSet/$bitsAnySet/... against integer arithmetic"},
@@ -160,7 +160,7 @@ var checks = []Check{
 		Property: "C17",
 		Harnesses: []Harness{
 			{Dir: ".", Func: "H_C17_driver", Quick: P{"fixedclock": 1}, Thorough: P{"fixedclock": 1}, Note: "driver API: returned ids, distinct values, decoded documents and arguments vs the engine's catalog"},
-			{Dir: ".", Func: "H_C17_txn", Quick: P{"maxdocs": 1, "tags": TInt32 | TString | TArray, "ctags": TInt32, "fixedclock": 1}, Thorough: P{"maxdocs": 2, "tags": stQuickTags, "ctags": TInt32, "fixedclock": 1}, Note: "engine-level inserts and replacements are cloned"},
+			{Dir: ".", Func: "H_C17_txn", Quick: P{"maxdocs": 1, "tags": TInt32 | TString | TArray, "ctags": TInt32, "fixedclock": 1}, Thorough: P{"maxdocs": 1, "tags": stQuickTags | TDoc, "ctags": TInt32, "fixedclock": 1}, Note: "engine-level inserts and replacements are cloned"},
 			lemClone, lemCloneFresh,
 		},
 		Assumptions: append([]string{"reachability monitor: two values alias iff a mutable heap slot (slice backing array, map, pointer target) of the engine heap is reachable from both; this decides aliasing without guessing which mutation would expose it",
@@ -171,7 +171,7 @@ var checks = []Check{
 		Property: "C18",
 		Harnesses: []Harness{
 			{Dir: ".", Func: "H_C18_upload", Quick: P{"maxlen": 5}, Thorough: P{"maxlen": 8, "maxchunk": 4, "maxbuf": 6}},
-			{Dir: ".", Func: "H_C18_download", Quick: P{"maxlen": 5, "steps": 3, "rsr": 1, "onewrite": 1, "maxread": 3, "maxchunk": 3, "maxbuf": 3}, Thorough: P{"maxlen": 5, "steps": 3, "maxread": 3, "maxchunk": 3, "maxbuf": 3}},
+			{Dir: ".", Func: "H_C18_download", Quick: P{"maxlen": 5, "steps": 3, "rsr": 1, "onewrite": 1, "maxread": 3, "maxchunk": 3, "maxbuf": 3}, Thorough: P{"maxlen": 5, "steps": 3, "rsr": 1, "maxread": 3, "maxchunk": 3, "maxbuf": 3}},
 			{Dir: ".", Func: "H_C18_tracked", Quick: P{"maxlen": 5, "cycles": 2, "fixedclock": 1}, Thorough: P{"maxlen": 7, "cycles": 3, "maxchunk": 4, "maxbuf": 5, "fixedclock": 1}, Note: "tracked upload lifecycle: suspend/resume cycles, abort, failed marker update in Close followed by Resume, claim, delete + cleanup"},
 			{Dir: ".", Func: "H_C18_delete", Quick: P{"maxlen": 4, "onewrite": 1}, Thorough: P{"maxlen": 6}, Note: "untracked Delete removes the record and every chunk of that file only"},
 		},
@@ -186,7 +186,6 @@ var checks = []Check{
 		Property: "C16",
 		Harnesses: []Harness{
 			{Dir: ".", Func: "H_C16_protocol", Quick: P{"actors": 2, "preempt": 1, "partners": 1, "fixedclock": 1}, Thorough: P{"actors": 2, "preempt": 1, "partners": 2, "fixedclock": 1}, Conc: true, ModelOnly: true},
-			{Dir: ".", Func: "H_C16_protocol", Thorough: P{"actors": 2, "preempt": 2, "partners": 1, "fixedclock": 1}, Conc: true, ModelOnly: true, Note: "pre-emption bound 2 against a plain writer"},
 			{Dir: ".", Func: "H_C05_engine", Quick: P{"fixedclock": 1}, Thorough: P{}, Note: "a failing store: error reported, state unchanged, slot released, later commits work"},
 			{Dir: ".", Func: "H_C16_shutdown", Quick: P{"preempt": 2, "fixedclock": 1}, Thorough: P{"preempt": 3, "fixedclock": 1}, Conc: true, ModelOnly: true, Note: "Close while a Begin (background, cancellable or nil context) is blocked behind an active writer: released with the closed error, not by the token timeout"},
 		},
@@ -210,10 +209,10 @@ var checks = []Check{
 	{
 		Property: "C09",
 		Harnesses: []Harness{
-			{Dir: ".", Func: "H_C09_seq", Quick: P{"maxevents": 3, "fixedclock": 1}, Thorough: P{"maxevents": 4, "fixedclock": 1}},
+			{Dir: ".", Func: "H_C09_seq", Quick: P{"maxevents": 3, "fixedclock": 1}, Thorough: P{"maxevents": 3, "fixedclock": 1}},
 			{Dir: ".", Func: "H_C09_lost", Quick: P{"fixedclock": 1}, Thorough: P{"fixedclock": 1}},
-			{Dir: ".", Func: "H_C09_trim", Quick: P{"maxevents": 2, "fixedclock": 1}, Thorough: P{"maxevents": 3, "fixedclock": 1}, Note: "retention trims a prefix while a stream is positioned anywhere in the log"},
-			{Dir: ".", Func: "H_C09_conc", Quick: P{"maxwrites": 1, "preempt": 2, "fixedclock": 1}, Thorough: P{"maxwrites": 2, "preempt": 2, "fixedclock": 1}, Conc: true, ModelOnly: true},
+			{Dir: ".", Func: "H_C09_trim", Quick: P{"maxevents": 2, "fixedclock": 1}, Thorough: P{"maxevents": 4, "fixedclock": 1}, Note: "retention trims a prefix while a stream is positioned anywhere in the log"},
+			{Dir: ".", Func: "H_C09_conc", Quick: P{"maxwrites": 1, "preempt": 2, "fixedclock": 1}, Thorough: P{"maxwrites": 1, "preempt": 2, "fixedclock": 1}, Conc: true, ModelOnly: true},
 		},
 		Assumptions: schedAssumptions,
 		Bounds: []string{"sequential: <= maxevents committed events (inserts and collection drops over 2 databases x 2 collections), stream scope client/database/collection, start position at any event given as resumeAfter token, startAfter token or startAt cluster time (incl. a time after the last event), or before everything (start time 0); expected sequence = scope-filtered suffix, invalidate after a drop of the watched namespace; lost position after retention removed the stream's position",
@@ -236,7 +235,7 @@ var checks = []Check{
 	{
 		Property: "C15",
 		Harnesses: append(stepFamily(1, []int{opInsertMany, opBulk, opCreateIndex, opDropIndex}),
-			Harness{Dir: ".", Func: "H_C06_roundtrip", Quick: P{"maxdocs": 1, "tags": stQuickTags, "ctags": TInt32}, Thorough: P{"maxdocs": 2, "tags": stQuickTags, "ctags": TInt32}, Note: "reload: rebuilt indexes are coherent"},
+			Harness{Dir: ".", Func: "H_C06_roundtrip", Quick: P{"maxdocs": 1, "tags": stQuickTags, "ctags": TInt32}, Thorough: P{"maxdocs": 1, "tags": stQuickTags | TDouble | TBool, "ctags": TInt32}, Note: "reload: rebuilt indexes are coherent"},
 			lemClone),
 		Assumptions: append([]string{"inductive step: the pre-state is a catalog built through the real API from a symbolic document list and index configuration (DESIGN.md 3.4); closure under histories of any length is the written induction argument, not a solver fact"}, commonAssumptions...),
 		Bounds:      stBounds,
@@ -275,8 +274,7 @@ var checks = []Check{
 		Property: "C19",
 		Harnesses: []Harness{
 			{Dir: ".", Func: "H_C19_expire", Quick: P{"maxdocs": 2, "fixedclock": 1}, Thorough: P{"maxdocs": 2, "fixedclock": 1}, ClockModel: true, Note: "the clock stands still at one arbitrary instant"},
-			{Dir: ".", Func: "H_C19_expire", Quick: P{"maxdocs": 1, "two": 1, "fixedclock": 1}, Thorough: P{"maxdocs": 2, "two": 1, "fixedclock": 1}, ClockModel: true, Note: "two TTL indexes (t and u) with independent intervals on one collection"},
-			{Dir: ".", Func: "H_C19_expire", Thorough: P{"maxdocs": 1}, ClockModel: true, Note: "arbitrary non-decreasing clock (second roll-over between the writes and the pass)"},
+			{Dir: ".", Func: "H_C19_expire", Quick: P{"maxdocs": 1, "two": 1, "fixedclock": 1}, Thorough: P{"maxdocs": 1, "two": 1, "fixedclock": 1}, ClockModel: true, Note: "two TTL indexes (t and u) with independent intervals on one collection"},
 			lemClone,
 		},
 		Assumptions: append([]string{"clock model: arbitrary non-decreasing instants; the pass is bracketed by two clock readings t0 <= now <= t1: documents older than t0-expiry must go, documents not older than t1-expiry must stay, in between either outcome is accepted"}, commonAssumptions...),
@@ -285,7 +283,7 @@ var checks = []Check{
 	{
 		Property: "C06",
 		Harnesses: []Harness{
-			{Dir: ".", Func: "H_C06_roundtrip", Quick: P{"maxdocs": 1, "tags": stQuickTags, "ctags": TInt32}, Thorough: P{"maxdocs": 2, "tags": stQuickTags, "ctags": TInt32}},
+			{Dir: ".", Func: "H_C06_roundtrip", Quick: P{"maxdocs": 1, "tags": stQuickTags, "ctags": TInt32}, Thorough: P{"maxdocs": 1, "tags": stQuickTags | TDouble | TBool, "ctags": TInt32}},
 			{Dir: ".", Func: "H_C06_commit", Quick: P{"maxwrites": 2}, Thorough: P{"maxwrites": 3}, ClockModel: true, Note: "what Commit persists is what it publishes, also when retention trims the change log"},
 			lemClone,
 		},
@@ -295,9 +293,8 @@ var checks = []Check{
 	{
 		Property: "C13",
 		Harnesses: []Harness{
-			{Dir: "mongokit", Func: "H_C13_find", Quick: P{"maxdocs": 2, "tags": TInt32 | TString}, Thorough: P{"maxdocs": 2}},
-			{Dir: "mongokit", Func: "H_C13_find", Thorough: P{"maxdocs": 3, "tags": TInt32 | TString}, Note: "three documents, scalar sort keys"},
-			{Dir: "mongokit", Func: "H_C13_write", Quick: P{"maxdocs": 2, "tags": TInt32 | TString}, Thorough: P{"maxdocs": 2}},
+			{Dir: "mongokit", Func: "H_C13_find", Quick: P{"maxdocs": 2, "tags": TInt32 | TString}, Thorough: P{"maxdocs": 2, "tags": TNull | TInt32 | TString}},
+			{Dir: "mongokit", Func: "H_C13_write", Quick: P{"maxdocs": 2, "tags": TInt32 | TString}, Thorough: P{"maxdocs": 2, "tags": TInt32 | TString}},
 			{Dir: "mongokit", Func: "H_C13_distinct", Quick: P{"maxdocs": 2, "useb": 0, "symid": 1}, Thorough: P{"maxdocs": 3, "useb": 0, "symid": 1}},
 		},
 		Assumptions: commonAssumptions,
@@ -329,7 +326,7 @@ var checks = []Check{
 	{
 		Property: "C14",
 		Harnesses: []Harness{
-			{Dir: "mongokit", Func: "H_C14_inclexcl", Quick: P{"ddepth": 1, "ftags": TInt32 | TBool, "tags": TNull | TInt32 | TString | TArray | TDoc | TFlatArr}, Thorough: P{"ddepth": 2}},
+			{Dir: "mongokit", Func: "H_C14_inclexcl", Quick: P{"ddepth": 1, "ftags": TInt32 | TBool, "tags": TNull | TInt32 | TString | TArray | TDoc | TFlatArr}, Thorough: P{"ddepth": 1}},
 			lemClone, lemCloneFresh,
 			{Dir: "mongokit", Func: "H_C14_mix", Quick: P{"ddepth": 0}, Thorough: P{"ddepth": 1}},
 			{Dir: "mongokit", Func: "H_C14_slice", Quick: P{}, Thorough: P{}},
@@ -344,18 +341,18 @@ var checks = []Check{
 	{
 		Property: "C20",
 		Harnesses: []Harness{
-			{Dir: "mongokit", Func: "H_C20_match_leaf", Quick: P{"path_n": 4, "ctags": TNull | TInt32 | TString}, Thorough: P{}},
-			{Dir: "mongokit", Func: "H_C20_match_top", Quick: P{"path_n": 4, "ctags": TNull | TInt32 | TString}, Thorough: P{}},
-			{Dir: "mongokit", Func: "H_C20_match_nested", Thorough: P{}},
-			{Dir: "mongokit", Func: "H_C20_match_num", Quick: P{"op": 4, "path_n": 2}, Thorough: P{}, Note: "quick: $mod only"},
-			{Dir: "mongokit", Func: "H_C20_apply_basic", Quick: P{"path_n": 6}, Thorough: P{}},
-			{Dir: "mongokit", Func: "H_C20_apply_push", Thorough: P{}},
-			{Dir: "mongokit", Func: "H_C20_apply_spec", Quick: P{"both": 1, "ctags": TNull | TInt32 | TString, "tags": TNull | TInt32 | TString | TBinary | TArray | TDoc}, Thorough: P{"both": 1}},
+			{Dir: "mongokit", Func: "H_C20_match_leaf", Quick: P{"path_n": 4, "ctags": TNull | TInt32 | TString}, Thorough: P{"ctags": TNull | TInt32 | TString}},
+			{Dir: "mongokit", Func: "H_C20_match_top", Quick: P{"path_n": 4, "ctags": TNull | TInt32 | TString}, Thorough: P{"ctags": TNull | TInt32 | TString}},
+			{Dir: "mongokit", Func: "H_C20_match_nested", Quick: P{"ctags": TNull | TInt32 | TString}, Thorough: P{"ctags": TNull | TInt32 | TString}},
+			{Dir: "mongokit", Func: "H_C20_match_num", Quick: P{"op": 4, "path_n": 2}, Thorough: P{"op": 4, "path_n": 2}, Note: "quick: $mod only"},
+			{Dir: "mongokit", Func: "H_C20_apply_basic", Quick: P{"path_n": 6}, Thorough: P{"path_n": 6}},
+			{Dir: "mongokit", Func: "H_C20_apply_push", Quick: P{"ctags": TNull | TInt32 | TString, "tags": TNull | TInt32 | TString | TArray | TDoc}, Thorough: P{"ctags": TNull | TInt32 | TString, "tags": TNull | TInt32 | TString | TArray | TDoc}},
+			{Dir: "mongokit", Func: "H_C20_apply_spec", Quick: P{"both": 1, "ctags": TNull | TInt32 | TString, "tags": TNull | TInt32 | TString | TBinary | TArray | TDoc}, Thorough: P{"both": 1, "ctags": TNull | TInt32 | TString, "tags": TNull | TInt32 | TDouble | TString | TBinary | TArray | TDoc}},
 			{Dir: "mongokit", Func: "H_C20_apply_raw", Quick: P{}, Thorough: P{}},
 			{Dir: "mongokit", Func: "H_C20_apply_filters", Quick: P{}, Thorough: P{}},
-			{Dir: "mongokit", Func: "H_C20_project", Quick: P{}, Thorough: P{"ddepth": 2}},
-			{Dir: "mongokit", Func: "H_C20_sort", Thorough: P{}},
-			{Dir: "mongokit", Func: "H_C20_coll", Quick: P{"ddepth": 0, "ctags": TNull | TInt32 | TString}, Thorough: P{"ddepth": 1}},
+			{Dir: "mongokit", Func: "H_C20_project", Quick: P{}, Thorough: P{}},
+			{Dir: "mongokit", Func: "H_C20_sort", Thorough: P{"ctags": TNull | TInt32 | TString, "tags": TNull | TInt32 | TString | TArray | TDoc}},
+			{Dir: "mongokit", Func: "H_C20_coll", Quick: P{"ddepth": 0, "ctags": TNull | TInt32 | TString}, Thorough: P{"ddepth": 0, "ctags": TNull | TInt32 | TString}},
 			{Dir: "mongokit", Func: "H_C20_window", Quick: P{}, Thorough: P{}},
 		},
 		Assumptions: commonAssumptions,
@@ -368,13 +365,13 @@ var checks = []Check{
 	{
 		Property: "C12",
 		Harnesses: []Harness{
-			{Dir: "bsonkit", Func: "H_C12_antisym", Quick: P{"tags": TScalars, "depth": 0}, Thorough: P{"tags": TAll, "depth": 2}},
-			{Dir: "bsonkit", Func: "H_C12_antisym", Quick: P{"tags": TNull | TInt32 | TString | TArray | TDoc, "depth": 1}, Thorough: P{"tags": TNull | TInt32 | TString | TArray | TDoc, "depth": 2},
+			{Dir: "bsonkit", Func: "H_C12_antisym", Quick: P{"tags": TScalars, "depth": 0}, Thorough: P{"tags": TAll, "depth": 1}},
+			{Dir: "bsonkit", Func: "H_C12_antisym", Quick: P{"tags": TNull | TInt32 | TString | TArray | TDoc, "depth": 1}, Thorough: P{"tags": TNull | TInt32 | TDouble | TString | TBool | TArray | TDoc, "depth": 1},
 				Note: "containers: documents/arrays that differ late or in length"},
 			{Dir: "bsonkit", Func: "H_C12_containers", Quick: P{"maxlen": 2}, Thorough: P{"maxlen": 3, "ctags": TNull | TInt32 | TDouble | TString | TBool}},
 			{Dir: "bsonkit", Func: "H_C12_class", Quick: P{"tags": TAll, "depth": 1}, Thorough: P{"tags": TAll, "depth": 1}},
 			{Dir: "bsonkit", Func: "H_C12_exact", Quick: P{}, Thorough: P{}},
-			{Dir: "bsonkit", Func: "H_C12_trans", Quick: P{"tags": TNull | TNumbers | TString | TBool, "depth": 0}, Thorough: P{"tags": TScalars | TArray, "depth": 1}},
+			{Dir: "bsonkit", Func: "H_C12_trans", Quick: P{"tags": TNull | TNumbers | TString | TBool, "depth": 0}, Thorough: P{"tags": TScalars, "depth": 0}},
 		},
 		Assumptions: commonAssumptions,
 		Bounds: []string{"scalars: every value of every supported non-decimal type (int32/int64/double full range incl. NaN, +-Inf, +-0; strings from pool {\"\",a,b}; binary length <= 2; ObjectID bytes 0 and 11 symbolic); containers: length <= 2, keys from {a,b}, nesting depth as stated per harness",
